@@ -4,6 +4,7 @@ import NixModel.Generated.WriteOrder
 import NixModel.Generated.LinkOrder
 import NixModel.Generated.CopyOrder
 import NixModel.Generated.PropCreateOrder
+import NixModel.Generated.RoleOrder
 open Lean Nix.Store
 
 /-!
@@ -34,6 +35,11 @@ Additional ops:
   ["propcreate_run", [memberOk, taken, nameValid, valuesOk, dtypeOk, valuesStorable]]       Section.create_property of
         Pure/PropCreate.lean run on Generated/PropCreateOrder.lean from a section holding one property (named like the
         new one iff taken); answer {"err": null | class, "items": n, "last": null | {"named": b, "id": b, "stamps": b, "values": b}}
+  ["role_run", setter, kind, place, idFound, ownerTagged, linked, targetFrame]       the role-link setters of
+        Pure/RoleWrite.lean run on Generated/RoleOrder.lean: setter = a name of `RoleOrder.all` | "Dimension.link_data_array"
+        | "Dimension.link_data_frame"; kind = "none" | "array" | "frame" | "section" | "other"; place = "member" |
+        "otherBlock" | "otherFile" | "deleted"; linked: the owner has the link; targetFrame = null | bool; answer
+        {"err": null | class, "link": null | "old" | "new", "target_frame": null | b, "stamped": b}
 -/
 namespace Driver.C12
 open Driver Driver.Store
@@ -241,8 +247,33 @@ def propCreateRun (flags : Json) : Json :=
         | _ => Json.null)])
   | _ => bad "propcreate_run"
 
+open Nix.Guarded Nix.RoleWrite in
+def roleRun (name kind place : String) (idFound tagged linked tframe : Json) : Json :=
+  let k : Option Kind := match kind with
+    | "none" => some .none | "array" => some .array | "frame" => some .frame | "section" => some .section
+    | "other" => some .other | _ => none
+  let pl : Option Place := match place with
+    | "member" => some .member | "otherBlock" => some .otherBlock | "otherFile" => some .otherFile
+    | "deleted" => some .deleted | _ => none
+  let steps : Option (Kind → List RStep) :=
+    if name == "Dimension.link_data_array" then some fun _ => Nix.Generated.RoleOrder.dimensionLinkDataArray
+    else if name == "Dimension.link_data_frame" then some fun _ => Nix.Generated.RoleOrder.dimensionLinkDataFrame
+    else (Nix.Generated.RoleOrder.all.find? (·.1 == name)).map (·.2)
+  match k, pl, steps with
+  | some k, some pl, some st =>
+    let a : Arg := ⟨k, pl, jBool idFound, jBool tagged, 7, 5⟩
+    let f : File := ⟨if jBool linked then some 3 else none, match tframe with | .null => none | b => some (jBool b), 1⟩
+    let r := run Nix.RoleWrite.sys a (st k) f
+    ok (Json.mkObj [
+      ("err", match r.2 with | none => Json.null | some e => Json.str e.toString),
+      ("link", match r.1.link with | none => Json.null | some t => Json.str (if t == 3 then "old" else "new")),
+      ("target_frame", match r.1.targetFrame with | none => Json.null | some b => Json.bool b),
+      ("stamped", Json.bool (r.1.stamp != 1))])
+  | _, _, _ => bad "role_run"
+
 def step (g : Graph) (j : Json) : Graph × Json :=
   match (jArr j).toList with
+  | [.str "role_run", .str name, .str kind, .str place, idf, tg, linked, tf] => (g, roleRun name kind place idf tg linked tf)
   | [.str "propcreate_run", flags] => (g, propCreateRun flags)
   | [.str "copy_run", .str name, kind, nm, keep, children] => (g, copyRun name kind nm keep children)
   | [.str "link_run", .str name, caps, entries, col, rank, cols, state] => (g, linkRun name caps entries col rank cols state)
